@@ -355,7 +355,7 @@ func (ob *Obligation) scriptPlain(opt scriptOpt) string {
 		sb.WriteString("(set-option :produce-models true)\n")
 	}
 	sb.WriteString("(set-logic ALL)\n(declare-fun STR () (Array Int (Array Int Int)))\n")
-	if opt.NoCheck || vc.QF {
+	if opt.NoCheck || vc.QF || ob.ExpectSat {
 		// z3 session: constant arrays are native there
 		sb.WriteString("(define-fun ZERO () (Array Int Int) ((as const (Array Int Int)) 0))\n")
 	} else {
@@ -466,6 +466,17 @@ func (ob *Obligation) scriptPlain(opt scriptOpt) string {
 			keep[i] = true
 		}
 	}
+	sp := newSharePrinter()
+	for i := 0; i < ob.Index; i++ {
+		if keep[i] && (vc.Items[i].Kind == itDef || vc.Items[i].Kind == itAssume) {
+			if vc.Items[i].Kind == itAssume && opt.DropQuant && hasQuant(vc.Items[i].Term) {
+				continue
+			}
+			sp.use(vc.Items[i].Term)
+		}
+	}
+	sp.use(ob.Goal)
+	sp.use(ob.Excuse)
 	for i := 0; i < ob.Index; i++ {
 		if !keep[i] {
 			continue
@@ -483,7 +494,8 @@ func (ob *Obligation) scriptPlain(opt scriptOpt) string {
 				fmt.Fprintf(&sb, "(declare-fun %s () %s)\n", it.Name, it.Sort)
 			}
 		case itDef:
-			fmt.Fprintf(&sb, "(define-fun %s () %s %s)\n", it.Name, it.Sort, it.Term)
+			body := sp.print(it.Term, &sb)
+			fmt.Fprintf(&sb, "(define-fun %s () %s %s)\n", it.Name, it.Sort, body)
 		case itDefRec:
 			var ps []string
 			for _, p := range it.Params {
@@ -494,7 +506,8 @@ func (ob *Obligation) scriptPlain(opt scriptOpt) string {
 			if opt.DropQuant && hasQuant(it.Term) {
 				continue
 			}
-			fmt.Fprintf(&sb, "(assert %s)\n", it.Term)
+			body := sp.print(it.Term, &sb)
+			fmt.Fprintf(&sb, "(assert %s)\n", body)
 		}
 	}
 	for _, p := range opt.BoundLens {
@@ -515,12 +528,16 @@ func (ob *Obligation) scriptPlain(opt scriptOpt) string {
 		}
 	}
 	if ob.Excuse != nil {
-		fmt.Fprintf(&sb, "(assert (not %s))\n", ob.Excuse)
+		body := sp.print(ob.Excuse, &sb)
+		fmt.Fprintf(&sb, "(assert (not %s))\n", body)
 	}
-	if ob.ExpectSat {
-		fmt.Fprintf(&sb, "(assert %s)\n", ob.Goal)
-	} else {
-		fmt.Fprintf(&sb, "(assert (not %s))\n", ob.Goal)
+	{
+		body := sp.print(ob.Goal, &sb)
+		if ob.ExpectSat {
+			fmt.Fprintf(&sb, "(assert %s)\n", body)
+		} else {
+			fmt.Fprintf(&sb, "(assert (not %s))\n", body)
+		}
 	}
 	if opt.NoCheck {
 		return sb.String()
